@@ -720,6 +720,15 @@ def parse_vc(path):
                     if not m2:
                         raise ExtractError(f'{path}: bad #truncate-after (need `/regex/ = expr`): {s2}')
                     fn['truncate'] = (m2.group(1), m2.group(2).strip())
+                elif s2.startswith('#wrap-postfix '):
+                    # R7w: `#wrap-postfix sha=<hash> /receiver-start-regex/ /postfix-regex/ = FUNC`: the method-chain
+                    # suffix matched by the second regex (compact text, pinned by hash), applied to the bracket-balanced
+                    # expression that starts at the match of the first regex and ends right in front of the suffix, is
+                    # replaced by a call `FUNC(<that expression>)` of an assumed function - the receiver stays verified
+                    m2 = re.match(r'#wrap-postfix\s+sha=(\w+)\s+/(.+?)/\s+/(.+)/\s*=\s*(.+)$', s2)
+                    if not m2:
+                        raise ExtractError(f'{path}: bad #wrap-postfix (need `sha=<hash> /start/ /postfix/ = func`): {s2}')
+                    fn.setdefault('wrap_postfix', []).append((m2.group(2), m2.group(3), m2.group(4).strip(), m2.group(1)))
                 elif s2.startswith('#abstract-expr '):
                     # R7e: `#abstract-expr sha=<hash> /regex/ = replacement-expression`
                     m2 = re.match(r'#abstract-expr\s+sha=(\w+)\s+/(.+)/\s*=\s*(.+)$', s2)
@@ -1004,6 +1013,41 @@ def extract_fn(repo, spec, features):
         edits.add(T[a].start, T[e].end, repl, 'rewrite', 'R7e abstract expr')
         log.append({'step': 'R7e', 'line': sf.line_of(T[a].start), 'abstracted_unverified': m.group(0)[:400], 'replaced_by': repl})
         dropped.append((T[a].start, T[e].end))
+
+    # ---- R7w: postfix abstraction (see the directive).  E.<postfix>  ->  FUNC(E)
+    for (rx_start, rx_post, func, want_sha) in spec.get('wrap_postfix', []):
+        live = [j for j in range(bo + 1, bc) if alive(T[j]) and T[j].kind != 'comment']
+        offs, acc = [], 0
+        for j in live:
+            offs.append(acc)
+            acc += len(T[j].text)
+        compact_txt = ''.join(T[j].text for j in live)
+        ms = [m for m in re.finditer(rx_start, compact_txt) if m.start() in offs]
+        mp = [m for m in re.finditer(rx_post, compact_txt) if m.start() in offs and (m.end() in offs or m.end() == acc)]
+        if len(ms) != 1 or len(mp) != 1 or mp[0].start() <= ms[0].start():
+            raise ExtractError(f'lost anchor: postfix /{rx_start}/ /{rx_post}/ in {spec["name"]} ({len(ms)}, {len(mp)} matches)')
+        a = live[offs.index(ms[0].start())]
+        pa = live[offs.index(mp[0].start())]
+        pe_idx = offs.index(mp[0].end()) if mp[0].end() in offs else len(live)
+        pe = live[pe_idx - 1]
+        depth = 0
+        for j in range(a, pa):
+            if T[j].kind == 'punct' and T[j].text in '([{':
+                depth += 1
+            elif T[j].kind == 'punct' and T[j].text in ')]}':
+                depth -= 1
+                if depth < 0:
+                    break
+        if depth != 0:
+            raise ExtractError(f'R7w refused: the receiver of /{rx_post}/ in {spec["name"]} is not bracket-balanced')
+        have_sha = hashlib.sha256(mp[0].group(0).encode()).hexdigest()[:16]
+        if have_sha != want_sha:
+            raise ExtractError(f'abstracted expression /{rx_post}/ in {spec["name"]} changed (sha {have_sha}, reviewed {want_sha})')
+        edits.add(T[a].start, T[a].start, func + '(', 'rewrite', 'R7w open')
+        edits.add(T[pa].start, T[pe].end, ')', 'rewrite', 'R7e abstract expr')
+        dropped.append((T[pa].start, T[pe].end))
+        log.append({'step': 'R7w', 'line': sf.line_of(T[pa].start), 'abstracted_unverified': mp[0].group(0)[:200],
+                    'replaced_by': func + '(<receiver>)'})
 
     # ---- R8: byte-string literal naming.  `b"left"` -> `verif_bytes_6c656674()`, a generated accessor
     # `fn verif_bytes_6c656674() -> (r: &'static [u8]) ensures r@ =~= seq![108u8, ..] { b"left" }` whose body
